@@ -61,6 +61,10 @@ def all_configs():
         out.append(c)
         if c["head"] == "bottomup" and c["strides"][0] != c["strides"][1] and (c["family"] != "unet" or (c["convs_per_block"] == 2 and c["middle_block"])):
             out.append(dict(c, pafs_first=True))
+        # other convolution kernel sizes (even kernels need asymmetric "same" padding), 3-channel input
+        if c["head"] in ("centroid", "bottomup") and c.get("filters", 4) == 4 and (c["family"] != "unet" or (c["convs_per_block"] == 2 and c["middle_block"] and c["filters_rate"] == 2)):
+            k = [2, 4, 5, 1][len(out) % 4]
+            out.append(dict(c, kernel_size=k, in_channels=3 if k in (4, 1) else 1))
     return out
 
 
@@ -95,16 +99,16 @@ def make_config(case):
 
     fam = case["family"]
     if fam == "unet":
-        bb = {"in_channels": case["in_channels"], "kernel_size": 3, "filters": case["filters"], "filters_rate": case["filters_rate"], "max_stride": case["max_stride"],
+        bb = {"in_channels": case["in_channels"], "kernel_size": case.get("kernel_size", 3), "filters": case["filters"], "filters_rate": case["filters_rate"], "max_stride": case["max_stride"],
               "stem_stride": case["stem_stride"], "middle_block": case["middle_block"], "up_interpolate": case["up_interpolate"], "stacks": 1,
               "convs_per_block": case["convs_per_block"], "output_stride": 1}
     elif fam == "convnext":
         bb = {"model_type": case["model_type"], "arch": {"depths": [1, 1, 2, 1], "channels": [8, 16, 32, 64]} if case["model_type"] == "custom" else None,
-              "stem_patch_kernel": 4, "stem_patch_stride": case["stem_patch_stride"], "in_channels": case["in_channels"], "kernel_size": 3, "filters_rate": 2,
+              "stem_patch_kernel": 4, "stem_patch_stride": case["stem_patch_stride"], "in_channels": case["in_channels"], "kernel_size": case.get("kernel_size", 3), "filters_rate": 2,
               "convs_per_block": case["convs_per_block"], "up_interpolate": case["up_interpolate"], "output_stride": 1, "max_stride": case["max_stride"]}
     else:
         bb = {"model_type": case["model_type"], "arch": None, "patch_size": [4, 4], "stem_patch_stride": case["stem_patch_stride"], "window_size": [7, 7],
-              "in_channels": case["in_channels"], "kernel_size": 3, "filters_rate": 2, "convs_per_block": case["convs_per_block"], "up_interpolate": case["up_interpolate"],
+              "in_channels": case["in_channels"], "kernel_size": case.get("kernel_size", 3), "filters_rate": 2, "convs_per_block": case["convs_per_block"], "up_interpolate": case["up_interpolate"],
               "output_stride": 1, "max_stride": case["max_stride"]}
     parts = ["a", "b", "c"]
     h = case["head"]
@@ -168,7 +172,7 @@ def check(ctx, case):
     small = dict(case)
     small["normalised_backbone"] = {"max_stride": ms, "output_stride": int(bb_cfg.output_stride)}
     nt_sig = (fam, case.get("model_type"), ms, case.get("stem_stride", case.get("stem_patch_stride")), case["filters_rate"], case.get("filters"), case["convs_per_block"], case["up_interpolate"],
-              case.get("middle_block"), h, tuple(case["strides"]), bool(case.get("pafs_first")))
+              case.get("middle_block"), h, tuple(case["strides"]), bool(case.get("pafs_first")), case.get("kernel_size", 3), case["in_channels"])
     interesting = (len(set(case["strides"])) > 1) or case.get("stem_stride") or fam != "unet" or case["strides"][0] != int(bb_cfg.output_stride)
     sizes = [(ms * 2, ms * 3), (ms * 1, ms * 2), (ms * 3, ms * 1)]
     try:
